@@ -386,7 +386,7 @@ func (ex *Exec) quiesce(site ssa.Instruction) {
 	for {
 		var next *Thread
 		for _, t := range ex.threads {
-			if t != cur && t.runnable() {
+			if t != cur && t.what != "quiesce" && t.runnable() {
 				next = t
 				break
 			}
@@ -397,7 +397,8 @@ func (ex *Exec) quiesce(site ssa.Instruction) {
 		// make cur wait until no other thread is runnable
 		cur.ready = func() bool {
 			for _, t := range ex.threads {
-				if t != cur && t.runnable() {
+				// another goroutine that is itself waiting for quiescence does not count as running
+				if t != cur && t.what != "quiesce" && t.runnable() {
 					return false
 				}
 			}
